@@ -11,7 +11,7 @@ import io
 import os
 import sys
 
-from .. import core, fsseam, workload
+from .. import bareref, core, fsseam, workload
 from ..core import bump, EventLog
 from ..forkrun import fork_call
 from ..threads import Baton, Stalled
@@ -36,7 +36,7 @@ COMPONENTS = {
 }
 ASSUMPTIONS = [
     'pre-emption granularity is seam calls, optionally source lines of rbql_engine (not bytecodes); C extension internals are atomic',
-    'the reference is the tree itself run alone in a pristine forked interpreter, so a bug that is identical alone and in company is invisible here',
+    'the reference is the tree itself run alone: in a fork of a separately started bare interpreter that imported rbql and nothing else (pandas operations: in a fork of the harness process, which never runs a query); a bug that is identical alone and in company is invisible here', 'a schedule is reported as stalled when no scheduling point is reached and no thread finishes for 10 s of wall time and all unfinished threads sit at the same instruction over four samples (the only use of a real clock)',
     'the JS engine keeps its context in a module global (documented limitation); only the Python engine is claimed',
 ]
 
@@ -110,6 +110,14 @@ KINDS = {
     'big_int_expr': ('select NR, int(a1) % 97', {'bigdigits': True}),
     'big_pow_out': ('select a1, 2 ** (int(a1) * 5000)', {}),
     'big_str_expr': ('select NR, len(str(3 ** (int(a1) * 3000)))', {}),
+    # Python syntax errors that only compile() of the generated loop reports (outside the select list)
+    'err_syntax_where': ('select a1 where a2 ==', {}),
+    'err_syntax_order': ('select a1, a2 order by a2 +', {}),
+    'err_syntax_update': ('update set a2 = a1 +', {}),
+    # missing-looking values in aggregates: None from short records, NaN from the text 'nan'
+    'agg_ragged_none': ('select MIN(a3), MAX(a3), COUNT(a3)', {'ragged': True}),
+    'agg_nan': ('select MIN(a1), MAX(a1)', {'nan_values': True}),
+    'agg_nan_group': ('select a2, MAX(a1), MIN(a1) group by a2', {'nan_values': True}),
 }
 KIND_NAMES = sorted(KINDS)
 THREAD_KINDS = [k for k in KIND_NAMES]
@@ -129,6 +137,9 @@ def gen_op(rng, kind=None, api=None, max_rows=6, pool=40):
     if opt.get('floats'):
         for r in rows:
             r[0] = rng.choice(['1', '2.5', '3', '0.5', '10', '2'])
+    if opt.get('nan_values'):
+        for r in rows:
+            r[0] = rng.choice(['nan', '3', '1', 'nan', '2.5', 'inf'])
     if opt.get('bigdigits'):
         for r in rows:
             r[0] = rng.choice(['7' * 4400, '12' * 2300, '5', '44', '9' * 4300, '1' + '0' * 4300])
@@ -620,7 +631,11 @@ def reference(op):
     k = core.digest(op)
     r = _ref_cache.get(k)
     if r is None:
-        r = fork_call(child_single, op)
+        if op['api'] == 'df':
+            r = fork_call(child_single, op)      # needs pandas anyway
+        else:
+            # a separately started interpreter that has imported rbql and nothing else (no pandas, no sqlite3)
+            r = bareref.call(op)
         if len(_ref_cache) > 50000:
             _ref_cache.clear()
         _ref_cache[k] = r
